@@ -378,6 +378,7 @@ def check_property(prop, tier, seed, replay=None):
         print('UNDECIDED kani harness=%s: %s' % (n, t), file=sys.stderr)
     if rc == 0:
         kf_ids = set(k['obligation'] for k, m in known_hit)
+        kf_ids |= set(x.split('#')[0] + '#lemma' for x in kf_ids)      # an isolated lemma that IS the finding
         all_obs = [o for o in all_obs if o['id'] not in kf_ids]
         nd = sum(1 for o in all_obs if o['discharged'])
         print('OK property=%s obligations=%d discharged=%d units=%s wall=%.1fs' % (prop, len(all_obs), nd, ','.join(sorted(units)), wall))
@@ -405,6 +406,7 @@ def write_evidence(prop, tier, seed, obs, trusted, functions, transformations, r
     meta = prop_meta(prop)
     # obligations recorded as known findings are reported separately: they are neither counted nor claimed
     kf_ids = set(k['obligation'] for k, m in known_hit)
+    kf_ids |= set(x.split('#')[0] + '#lemma' for x in kf_ids)      # an isolated lemma that IS the finding
     obs = [o for o in obs if o['id'] not in kf_ids]
     n = len(obs)
     nd = sum(1 for o in obs if o['discharged'])
